@@ -96,3 +96,38 @@ CHECKS["C17"] = {
     "mandatory_labels": {"all": ["pure/period-boundary", "hist/observed-across-deadline", "hist/registered-in-earlier-period", "hist/cross-accept",
                                  "hist/own-previous-in-grace", "hist/foreign", "static"]},
 }
+
+_SS = "pkg/secretstore"
+
+CHECKS["C01"] = {
+    "level": "exploration",
+    "level_text": ("generated group sessions (3 group types, payload 0..64 KiB) with an enumerated mutation catalogue per envelope (bit flips, field "
+                   "substitutions, re-sealed headers, other group, insider forgeries with the right message key); oracle: honest opens are exact, "
+                   "every mutant is rejected on every presentation, genuine messages still open afterwards"),
+    "level_note": "trusts NaCl secretbox/box, Ed25519 and HKDF; forgeries are built with an independent re-implementation of the envelope framing",
+    "technique": "property-based testing (rapid) with mutation catalogue: round-trip + 'forgery => rejected' + differential framing oracle",
+    "rule": ("case = one group session (kind, window, 1-5 messages) with all its mutants; non-trivial = >=1 honest open of a non-empty payload and >=1 "
+             "mutant that decrypts and is stopped only by the signature/attribution check; distinct = (kind, window, payload bucket, mutant classes, n, flips)"),
+    "assumptions": ["the CID passed with an envelope is the content hash of that envelope (as MessageStore guarantees)"],
+    "units": [
+        {"pkg": _SS, "run": "^TestVerif_C01_", Q: {"timeout": 600}, T: {"timeout": 3400, "shards": 12}},
+    ],
+    "mandatory_labels": {"all": ["kind/account", "kind/contact", "kind/multimember", "payload>=4KiB", "payload-empty", "mutants-decrypting-to-signature-check"]},
+}
+
+CHECKS["C02"] = {
+    "level": "exploration",
+    "level_text": ("exhaustive enumeration of all attempt/registration sequences with repetitions for small windows (tree with datastore snapshots) "
+                   "plus rapid-generated long histories for the default window and several senders, each step compared with a reference ratchet model"),
+    "level_note": "trusts the in-memory datastore; the exhaustive tier is complete only for the stated alphabet/depth bounds",
+    "technique": "model-based property testing (reference ratchet model) with bounded-exhaustive history enumeration + rapid histories",
+    "rule": ("exhaustive: case = one leaf history over the alphabet {register announcement@c, older/same announcement, attempt m1..mn}; random: case = one "
+             "generated history; non-trivial = history with an out-of-order success, an attempt exactly at the window edge (k = bound or bound+1) and a duplicate; "
+             "distinct = (window, history)"),
+    "assumptions": ["the CID of an envelope identifies it (content hash)", "newer announcements of an already registered device are outside the statement and not generated"],
+    "units": [
+        {"pkg": _SS, "run": "^TestVerif_C02_", Q: {"timeout": 600}, T: {"timeout": 3400, "shards": 16}},
+    ],
+    "mandatory_labels": {"all": ["tree/edge-attempt", "tree/duplicate", "tree/out-of-order-success", "random/edge-attempt", "random/duplicate",
+                                 "random/out-of-order-success", "random/re-registration", "random/two-senders"]},
+}
